@@ -1,4 +1,4 @@
-import LyModel.JsonTree.Model
+import LyModel.JsonTree.Spec
 import LyModel.Generated.JsonTyping
 /-! driver op of component `jsontree`: `print <rows-hex>` — rows as printed by harness `api_rt` (`jview`). -/
 namespace LyModel.JsonTree.Drv
@@ -74,6 +74,19 @@ def handle (op : String) (args : List String) : String :=
       | some rows =>
         let (forest, rest) := build (2 * rows.length + 2) 0 rows
         if rest.isEmpty then "ok " ++ Hex.enc (printData forest) else "err BadRows"
+  | "spec", [h] =>
+    -- the declarative specification (defined for trees without metadata)
+    match Hex.dec h with
+    | none => "err BadHex"
+    | some b =>
+      let lines := ((String.fromUTF8? (ByteArray.mk b.toArray)).getD "").splitOn "\n" |>.filter (· ≠ "")
+      match lines.mapM parseRow with
+      | none => "err Unsupported"
+      | some rows =>
+        let (forest, rest) := build (2 * rows.length + 2) 0 rows
+        if !rest.isEmpty then "err BadRows"
+        else if rows.any (fun r => !r.metas.isEmpty) then "err HasMeta"
+        else "ok " ++ Hex.enc (specData forest)
   | _, _ => "err BadOp"
 
 end LyModel.JsonTree.Drv
